@@ -147,7 +147,10 @@ void WorkerPool<T, Neighbors, N>::run(
         if (can_subdivide)
         {
             Tape::Handle next_tape;
-            if (task.vol) {
+            // The volume tree can only stand in for interval evaluation in
+            // trees whose empty / filled cells carry no data (singletons);
+            // simplex and hybrid cells need their leaf even when unambiguous.
+            if (task.vol && T::hasSingletons()) {
                 auto i = task.vol->check(t->region);
                 if (i == Interval::EMPTY || i == Interval::FILLED) {
                     t->setType(i);
